@@ -3,7 +3,7 @@
    "for all big-integer operands and all word operands in the C type's range, the body = the Z operation".
    The statements themselves are the Definitions `..._exact` in the Proofs*.v files. *)
 From Coq Require Import ZArith.
-From C01 Require Import Model Model2 Model3 ProofsBase ProofsAdd ProofsSub ProofsMul ProofsCmp ProofsBits ProofsGcd ProofsPow ProofsLoops.
+From C01 Require Import Model Model2 Model3 ProofsBase ProofsAdd ProofsSub ProofsMul ProofsCmp ProofsBits ProofsGcd ProofsPow ProofsLoops ProofsMisc.
 Local Open Scope Z_scope.
 
 Theorem C01_constructors_exact : Ctor_exact.            Proof. exact ctor_exact. Qed.
@@ -62,10 +62,27 @@ Print Assumptions C01_roots_exact.
    operator vect_t followed by Integer(vect_t) = |x| *)
 Theorem C01_logp_and_limb_vector_exact : Loops_exact.    Proof. exact loops_exact. Qed.
 Print Assumptions C01_logp_and_limb_vector_exact.
-(* pp(P,Q), P <> 0: a divisor of P coprime to Q (termination within the fuel included); FULL statement not proved: pp is the LARGEST
-   such divisor, i.e. additionally P / pp(P,Q) divides a power of Q *)
-Theorem C01_pp_coprime_divisor_partial : Pp_coprime_divisor.   Proof. exact pp_coprime_divisor. Qed.
-Print Assumptions C01_pp_coprime_divisor_partial.
+(* pp(P,Q), P <> 0 (a loop of givaro's own): a divisor of P, coprime to Q, divisible by EVERY divisor of P coprime to Q (the largest
+   such divisor), and P / pp(P,Q) divides a power of Q; termination within the fuel included *)
+Theorem C01_pp_largest_coprime_divisor_exact : Pp_exact.   Proof. exact pp_exact. Qed.
+Print Assumptions C01_pp_largest_coprime_divisor_exact.
+Example C01_pp_hyp_satisfiable : exists P Q, P <> 0 /\ pp P Q = 5 /\ (2 | P) /\ (2 | Q).
+Proof. exists 360, 6. repeat split; [discriminate | exists 180; reflexivity | exists 3; reflexivity]. Qed.
+(* fact = l!, swap, size_in_base for bases 2^k, isperfectpower(n) <> 0 <-> n = a^b with b > 1 (were oracle-only before phase 3) *)
+Theorem C01_fact_swap_sizeinbase_perfectpower_exact : Misc_exact.   Proof. exact misc_exact. Qed.
+Print Assumptions C01_fact_swap_sizeinbase_perfectpower_exact.
+Example C01_misc_hyp_satisfiable : fact 5 = 120 /\ size_in_base 255 (2 ^ 4) = 2 /\ isperfectpower (-27) = 1 /\ isperfectpower (-16) = 0.
+Proof. repeat split. Qed.
+(* template<class XXX> operator +=, -=, *= instantiated at double (adds / subtracts / multiplies by the truncation of the double) and at unsigned char *)
+Theorem C01_template_operator_forms_exact : Template_exact.   Proof. exact template_exact. Qed.
+Print Assumptions C01_template_operator_forms_exact.
+Example C01_template_hyp_satisfiable : in_u8 255 /\ opPlusEq_Tu8 (-1) 255 = 254 /\ opPlusEq_Td 0 5 (-1) = 2.
+Proof. repeat split; discriminate. Qed.
+(* consecutive in-place operations on one object (as the harness drives them) compose to the Z value *)
+Theorem C01_sequences_on_one_object_exact : Sequences_exact.   Proof. exact sequences_exact. Qed.
+Print Assumptions C01_sequences_on_one_object_exact.
+Example C01_sequences_hyp_satisfiable : in_u64 (2 ^ 63) /\ seq_acc_u64 0 (2 ^ 63) (2 ^ 63) = 3 * 2 ^ 63.
+Proof. split; [split; [discriminate | reflexivity] | reflexivity]. Qed.
 (* the bodies as they were before the repairs frag/C01.fix-2/3/4.diff do NOT satisfy their clause (witnesses) *)
 Theorem C01_absCompare_i32_before_fix2_refuted :
   exists a b, in_i32 b /\ absCompare_i32_tree a b <> Z.sgn (Z.abs a - Z.abs b).   Proof. exact absCompare_i32_tree_refuted. Qed.
